@@ -119,18 +119,27 @@ func Metacall(t *Thread, obj Value, method string, args []Value, next Cont) (err
 // metamethod and returns the continuations that needs to be run to get the
 // results.
 func Continue(t *Thread, f Value, next Cont) (Cont, error) {
-	callable, ok := f.TryCallable()
-	if ok {
-		return callable.Continuation(t, next), nil
+	// The '__call' metamethod may itself be a value with a '__call'
+	// metamethod: callees[i] is to be passed as first argument to
+	// callees[i+1].
+	var callees []Value
+	for i := 0; i < maxIndexChainLength; i++ {
+		callable, ok := f.TryCallable()
+		if ok {
+			cont := callable.Continuation(t, next)
+			for j := len(callees) - 1; j >= 0; j-- {
+				t.Push1(cont, callees[j])
+			}
+			return cont, nil
+		}
+		meta := t.metaGetS(f, "__call")
+		if meta.IsNil() {
+			return nil, fmt.Errorf("attempt to call a %s value", f.CustomTypeName())
+		}
+		callees = append(callees, f)
+		f = meta
 	}
-	cont, err, ok := metacont(t, f, "__call", next)
-	if !ok {
-		return nil, fmt.Errorf("attempt to call a %s value", f.CustomTypeName())
-	}
-	if cont != nil {
-		t.Push1(cont, f)
-	}
-	return cont, err
+	return nil, errors.New("'__call' chain too long; possible loop")
 }
 
 // Call calls f with arguments args, pushing the results on next.  It may use
@@ -139,15 +148,19 @@ func Call(t *Thread, f Value, args []Value, next Cont) error {
 	if f.IsNil() {
 		return errors.New("attempt to call a nil value")
 	}
-	callable, ok := f.TryCallable()
-	if ok {
-		return t.call(callable, args, next)
+	for i := 0; i < maxIndexChainLength; i++ {
+		callable, ok := f.TryCallable()
+		if ok {
+			return t.call(callable, args, next)
+		}
+		meta := t.metaGetS(f, "__call")
+		if meta.IsNil() {
+			return fmt.Errorf("attempt to call a %s value", f.CustomTypeName())
+		}
+		args = append([]Value{f}, args...)
+		f = meta
 	}
-	err, ok := Metacall(t, f, "__call", append([]Value{f}, args...), next)
-	if ok {
-		return err
-	}
-	return fmt.Errorf("attempt to call a %s value", f.CustomTypeName())
+	return errors.New("'__call' chain too long; possible loop")
 }
 
 // Call1 is a convenience method that calls f with arguments args and returns
@@ -464,18 +477,6 @@ func stripFirstLineComment(chunk []byte) ([]byte, bool) {
 		}
 	}
 	return nil, true
-}
-
-func metacont(t *Thread, obj Value, method string, next Cont) (Cont, error, bool) {
-	f := t.metaGetS(obj, method)
-	if f.IsNil() {
-		return nil, nil, false
-	}
-	cont, err := Continue(t, f, next)
-	if err != nil {
-		return nil, err, true
-	}
-	return cont, nil, true
 }
 
 func metabin(t *Thread, f string, x Value, y Value) (Value, error, bool) {
